@@ -1,8 +1,164 @@
 import RoaringModel.Driver.Core
-/-! Driver handlers: family `Codec` (stub — replaced when the family's model exists) -/
+import RoaringModel.IO
+import RoaringModel.SerOps
+import RoaringModel.SpecCodec
+/-! Driver handlers: family `Codec` (C05, C06, C13, C14, C18) -/
 namespace Roaring.Driver
 open Roaring
 
-def opsCodec : Handler := fun _ _ => none
+/-- a byte string on an output line: in full when short, else length + hash -/
+def showBytes (bs : List Nat) : String :=
+  if bs.length ≤ 64 then s!"n={bs.length} hex:{hexBytes bs}" else s!"n={bs.length} sh={hex64 (fnv bs)}"
+
+def parseMode (t : String) : Option Bool :=
+  if t = "chk" then some true else if t = "unchk" then some false else none
+
+def parseEv (t : String) : Option IoEv :=
+  if t = "i" then some .intr else (t.toNat?.filter (fun n => 1 ≤ n ∧ n ≤ 1000000)).map .chunk
+
+def parseEvs : List String → Option (List IoEv)
+  | [] => some []
+  | t :: ts => match parseEv t, parseEvs ts with
+    | some e, some l => some (e :: l)
+    | _, _ => none
+
+/-- `sched:` (empty = plain reader/writer) or `sched:3,i,1` (cycled); a non-empty schedule must contain
+    a chunk, otherwise `read_exact` / `write_all` would spin forever -/
+def parseSched (t : String) : Option (List IoEv) :=
+  if !t.startsWith "sched:" then none else
+  let body := (t.drop 6).toString
+  if body.isEmpty then some [] else
+  match parseEvs (body.splitOn ",") with
+  | some evs => if evs.any (fun e => match e with | .chunk _ => true | .intr => false) then some evs else none
+  | none => none
+
+/-- unroll a cycled schedule until it holds at least `need` chunk events (each consumes ≥ 1 byte or ends
+    the loop, so the unrolled schedule is never exhausted) -/
+def expandSched (cyc : List IoEv) (need : Nat) : List IoEv :=
+  let per := (cyc.filter (fun e => match e with | .chunk _ => true | .intr => false)).length
+  if per = 0 then [] else (List.replicate (need / per + 1) cyc).flatten
+
+def parseKV (key : String) (t : String) : Option String :=
+  if t.startsWith (key ++ ":") then some (t.drop (key.length + 1)).toString else none
+
+/-- the documented content of the two golden files (roaring/tests/serialization.rs `test_data_bitmap`) -/
+def testDataSet : List Nat :=
+  Spec.sOr (Spec.sOr ((List.range 100).map (· * 1000)) ((List.range' 100000 100000).map (· * 3)))
+    (List.range' 700000 100000)
+
+def showDeser (chk : Bool) (m : Bitmap) (rest : Nat) : String :=
+  s!"ok rest={rest}" ++ (if chk then s!" wf={showBool (bitmapWF m)}" else "")
+
+/-- common tail of the `deser*` ops: compare the model result with the strict reference decoder -/
+def finishDeser (st : DState) (i : Nat) (chk : Bool) (bytes : List Nat)
+    (r : Except DecErr (Bitmap × Nat)) : DState × String :=
+  let q := Spec.decode bytes
+  match r with
+  | .ok (m, rest) =>
+    let out := showDeser chk m rest
+    match q with
+    | some (S, srest) => (st.setB i ⟨m, S⟩, specMark out (s!"ok rest={srest.length}" ++ (if chk then " wf=true" else "")))
+    | none => (st.setB i ⟨m, Bitmap.elems m⟩, out)     -- not conformant: the reference has no opinion
+  | .error .panic => (st, match q with | some _ => "panic !SPEC(ok)" | none => "panic")
+  | .error _ => (st, match q with | some _ => "err !SPEC(ok)" | none => "err")
+
+def opsCodec : Handler := fun st toks =>
+  let b? (t : String) := (parseSlot 'b' t).bind fun i => (st.getB i).map fun s => (i, s)
+  match toks with
+  | "note" :: _ => some (st, "ok")      -- generator annotations (shape / corruption labels), echoed by both sides
+  | ["ser", d] => do
+    let (_, sl) ← b? d
+    pure (st, specMark (showBytes (Bitmap.serialize sl.m)) (showBytes (Spec.encode sl.s)))
+  | ["ser_size", d] => do
+    let (_, sl) ← b? d
+    pure (st, specMark (toString (Bitmap.serializedSize sl.m)) (toString (Spec.encode sl.s).length))
+  | ["spec_encode", d] => do
+    let (_, sl) ← b? d
+    pure (st, showBytes (Spec.encode sl.s))
+  | ["spec_decode", h] => do
+    let bytes ← parseHex h
+    match Spec.decode bytes with
+    | some (S, rest) =>
+      let same := Spec.encode S ++ rest == bytes
+      pure (st, s!"ok len={S.length} eh={hex64 (fnv S)} rest={rest.length} same={showBool same}")
+    | none => pure (st, "err")
+  | ["testdata", d] => do
+    let i ← parseSlot 'b' d
+    -- the model value is obtained by decoding the reference encoding of the documented set (200 100 single
+    -- `insert`s on lists would take seconds); `dump` re-checks `elems m = testDataSet` and `WF`
+    let m := match deserialize true st.dbg (Spec.encode testDataSet) with
+      | .ok (m, _) => m
+      | .error _ => Bitmap.fromIter testDataSet
+    pure (st.setB i ⟨m, testDataSet⟩, "ok")
+  | ["deser", mode, d, h] => do
+    let chk ← parseMode mode; let i ← parseSlot 'b' d; let bytes ← parseHex h
+    let r := match deserialize chk st.dbg bytes with
+      | .ok (m, rest) => Except.ok (m, rest.length)
+      | .error e => .error e
+    pure (finishDeser st i chk bytes r)
+  | ["deser_trunc", mode, d, k, h] => do
+    let chk ← parseMode mode; let i ← parseSlot 'b' d; let k ← parseU64 k; let full ← parseHex h
+    let bytes := full.take k
+    let r := match deserialize chk st.dbg bytes with
+      | .ok (m, rest) => Except.ok (m, rest.length)
+      | .error e => .error e
+    -- a strict prefix of a conformant stream must be an error (C14)
+    match Spec.decode full, r with
+    | some (_, srest), .ok (m, rest) =>
+      if k < full.length - srest.length then
+        pure (st.setB i ⟨m, Bitmap.elems m⟩, specMark (showDeser chk m rest) "err")
+      else pure (finishDeser st i chk bytes r)
+    | _, _ => pure (finishDeser st i chk bytes r)
+  | ["deser_sched", mode, d, sc, h] => do
+    let chk ← parseMode mode; let i ← parseSlot 'b' d; let cyc ← parseSched sc; let bytes ← parseHex h
+    let r := match deserializeSched chk st.dbg bytes (expandSched cyc (bytes.length + 2)) with
+      | .ok (m, rd) => Except.ok (m, rd.data.length)
+      | .error e => .error e
+    pure (finishDeser st i chk bytes r)
+  | ["deser_prefix", mode, d, s, k] => do
+    let chk ← parseMode mode; let i ← parseSlot 'b' d; let (_, sl) ← b? s; let k ← parseU64 k
+    let bytes := (Bitmap.serialize sl.m).take k
+    let total := (Spec.encode sl.s).length
+    let specOut := if k < total then "err" else "ok rest=0 eq=true"
+    match deserialize chk st.dbg bytes with
+    | .ok (m, rest) =>
+      pure (st.setB i ⟨m, if k < total then Bitmap.elems m else sl.s⟩,
+            specMark s!"ok rest={rest.length} eq={showBool (Bitmap.eq m sl.m)}" specOut)
+    | .error .panic => pure (st, specMark "panic" specOut)
+    | .error _ => pure (st, specMark "err" specOut)
+  | ["ser_fail", d, lim, mode, sc] => do
+    let (_, sl) ← b? d
+    let k ← (parseKV "limit" lim).bind parseU64
+    let zero ← (parseKV "mode" mode).bind fun m => if m = "zero" then some true else if m = "err" then some false else none
+    let cyc ← parseSched sc
+    let total := Spec.encode sl.s
+    let w : SWriter := { accRev := [], room := k, zeroMode := zero, sched := expandSched cyc (total.length + 2) }
+    let r := Bitmap.serializeInto sl.m w
+    let show_ (ok : Bool) (bs : List Nat) := (if ok then "ok" else "err") ++ s!" n={bs.length} sh={hex64 (fnv bs)}"
+    pure (st, specMark (show_ r.1 r.2.bytes) (show_ (decide (total.length ≤ k)) (total.take k)))
+  | ["inter_ser", d, l, h] => do
+    let i ← parseSlot 'b' d; let (_, sl) ← b? l
+    let bytes ← parseHex h
+    let q := Spec.decode bytes
+    match Bitmap.interSer st.dbg sl.m bytes with
+    | .ok m =>
+      (match q with
+       | some (S, _) => pure (st.setB i ⟨m, Spec.sAnd sl.s S⟩, "ok")
+       | none => pure (st.setB i ⟨m, Bitmap.elems m⟩, "ok"))
+    | .error .panic => pure (st, match q with | some _ => "panic !SPEC(ok)" | none => "panic")
+    | .error _ => pure (st, match q with | some _ => "err !SPEC(ok)" | none => "err")
+  | ["inter_ser_trunc", d, l, k, h] => do
+    let i ← parseSlot 'b' d; let (_, sl) ← b? l; let k ← parseU64 k
+    let bytes ← parseHex h
+    let q := Spec.decode bytes
+    match Bitmap.interSer st.dbg sl.m (bytes.take k) with
+    | .ok m =>
+      -- an early end may go unnoticed only if the result is still the right set
+      (match q with
+       | some (S, _) => pure (st.setB i ⟨m, Spec.sAnd sl.s S⟩, "ok")
+       | none => pure (st.setB i ⟨m, Bitmap.elems m⟩, "ok"))
+    | .error .panic => pure (st, "panic !SPEC(err)")
+    | .error _ => pure (st, "err")
+  | _ => none
 
 end Roaring.Driver
